@@ -88,7 +88,7 @@ func init() {
 func genCases(seed int64, tier string) []core.Case {
 	n, drivers := 40, []string{"memory", "secrets"}
 	if tier == "thorough" {
-		n, drivers = 300, []string{"memory", "secrets", "configmaps"}
+		n, drivers = 600, []string{"memory", "secrets", "configmaps"}
 	}
 	rng := rand.New(rand.NewSource(seed*15485863 + 12))
 	var out []core.Case
